@@ -7,9 +7,11 @@ def run(ctx):
     cli.rule_dispatch(ctx, 'credulous')
     accept.rule_membership_answers(ctx, 'credulous')
     accept.rule_list_quantifiers(ctx, 'credulous')
+    accept.rule_every_listed_argument(ctx, 'credulous')
     accept.rule_certificate_shapes(ctx, 'credulous')
     provenance.rule_literal_provenance(ctx, 'credulous')
     provenance.rule_fresh_solver_per_encoding(ctx, 'credulous')
+    provenance.rule_range_encoding(ctx)
     accept.rule_stage_layering(ctx, 'credulous')
     ctx.assume("rustc's MIR and resolved callees; the tables stated in the property (DC-PR through the complete solver)")
     return (
